@@ -26,6 +26,7 @@ PART = "errors"
 HEAVY_PREFIXES = ("graphs:templates", "graphs:attribute-sets:cyclic", "dynamic:unbounded", "boundary:", "graphs:import", "graphs:include")
 PLAIN_AS_LIMIT_KB = 4 * 1024 * 1024      # 4 GB of address space for one plain-build process (a batch of 40 ordinary cases needs < 300 MB)
 DEEP_CHAIN_GUARD = 1000      # K-C03e-1: dependency paths of top-level variables longer than this are not generated
+FACTS = {}      # what the translator found in the tree at hand (variant flags, limits)
 CIRC_RX = re.compile(r"circular variable definition", re.I)
 INF_RX = re.compile(r"infinite recursion", re.I)
 LINE_RX = re.compile(r"line (\d+), column (\d+)")
@@ -53,9 +54,11 @@ def mk(entry, cls, S, D=G.DOC, X="", **kw):
 # ---------------------------------------------------------------------------------------------
 # stream 1: dependency graphs
 
-def gen_graphs(ctx, scale):
+def gen_graphs(ctx, scale, facts):
     r = ctx.rng
     items = []
+    FACTS.clear()
+    FACTS.update(facts)
     n_var, n_att, n_tmpl = 110 * scale, 40 * scale, 26 * scale
     # fixed shapes first: cycles of every length 1..5, entered directly and through an acyclic prefix
     shapes = []
@@ -78,11 +81,19 @@ def gen_graphs(ctx, scale):
         deps = G.random_graph(r, n, cyc)
         forms = [r.choice(G.VAR_FORMS) for _ in range(n)]
         items.append(variable_item(ctx, deps, forms, r.randrange(n), "random"))
-    for depth in (50, 400, DEEP_CHAIN_GUARD):                  # long acyclic chains (below the K-C03e-1 guard) and long cycles
+    limited, L = bool(facts.get("variable_depth_limited")), int(facts.get("variable_nesting_limit") or 0)
+    top = min(L, 3000) if limited else DEEP_CHAIN_GUARD
+    for depth in sorted({50, 400, top}):                  # long acyclic chains (up to the nesting limit / the K-C03e-1 guard) and long cycles
         chain = [[i + 1] for i in range(depth - 1)] + [[]]
         items.append(variable_item(ctx, chain, ["select"] * depth, 0, "chain", check_value=False))
         ring = [[(i + 1) % depth] for i in range(depth)]
         items.append(variable_item(ctx, ring, [r.choice(["select", "body"]) for _ in range(depth)], r.randrange(depth), "ring", check_value=False))
+    if limited and L <= 3000:
+        for depth in (L + 1, L + 2, 2 * L + 1):             # one variable too many: the nesting error, never a crash
+            chain = [[i + 1] for i in range(depth - 1)] + [[]]
+            items.append(variable_item(ctx, chain, [r.choice(["select", "body", "withparam"])] * depth, 0, "chain", check_value=False))
+        ring = [[(i + 1) % (L + 7)] for i in range(L + 7)]  # a cycle longer than the limit: refused by the limit before the cycle closes
+        items.append(variable_item(ctx, ring, ["select"] * (L + 7), 3, "ring", check_value=False))
     for _ in range(n_att):
         n = r.randrange(1, 8)
         deps = G.random_graph(r, n, r.choice([None, None, 1, 2, 3, 5]))
@@ -112,12 +123,20 @@ def variable_item(ctx, deps, forms, start, kind, check_value=True):
     r = ctx.rng
     wf = G.well_founded(deps)
     ok = start in wf
+    limited, L = bool(FACTS.get("variable_depth_limited")), int(FACTS.get("variable_nesting_limit") or 0)
+    must_fail = not ok
+    if ok and limited and G.longest_path(deps, start, wf) > L:
+        # a chain of references longer than the nesting limit: refused for a chain; with shared references the
+        # outcome depends on which reference is evaluated first (a stored value is not evaluated again)
+        ok = False
+        must_fail = True if kind == "chain" else None
     use = r.choice(["value-of", "value-of", "attribute", "sort"])
-    forms, use = G.no_nested_sort(deps, forms, use, start)      # K-C03e-4
+    if not FACTS.get("nested_sort_own_sorter"):
+        forms, use = G.no_nested_sort(deps, forms, use, start)      # K-C03e-4
     s = G.render_variables(deps, forms, start, use)
     exp = ("text", G.var_value(deps, forms, start)) if ok and check_value else None
-    cls = "graphs:variables:%s:%s" % (kind, "acyclic" if ok else "cyclic")
-    it = mk(r.choice("TTTCA"), cls, s, must_fail=not ok, expect_out=exp,
+    cls = "graphs:variables:%s:%s" % (kind, "acyclic" if start in wf else "cyclic")
+    it = mk(r.choice("TTTCA"), cls, s, must_fail=must_fail, expect_out=exp,
             model_line="V %d %d %s" % (len(deps), start, G.table(deps)), oracle=("variables", ok),
             note=",".join(sorted(set(forms))))
     return it
@@ -137,6 +156,18 @@ def gen_boundaries(ctx, facts):
         ok = d <= d_ok
         items.append(mk("T", "boundary:template-limit", rec, must_fail=not ok, expect_out=("text", "B") if ok else None,
                         model_line="T ladder %d" % (d + 1), oracle=("ladder", ok)))
+    if facts.get("evaluate_nesting_limited"):
+        el = int(facts.get("evaluate_nesting_limit") or 0)
+        for fn in ("x:evaluate", "dyn:evaluate"):
+            for k in (el - 1, el, el + 1, 10 * el):     # k + 1 nested calls
+                vs = "".join("<xsl:variable name='s%d' select=\"'%s($s%d)'\"/>\n" % (i, fn, i + 1) for i in range(k)) + "<xsl:variable name='s%d' select=\"'7'\"/>" % k
+                sh = G.HEAD.replace("xmlns:x=", "xmlns:dyn='http://exslt.org/dynamic' xmlns:x=") + "<xsl:output method='text'/>" + vs + \
+                    "<xsl:template match='/'><xsl:value-of select='%s($s0)'/></xsl:template>" % fn + G.TAIL
+                okk = k + 1 <= el
+                # dyn:evaluate turns every error in its argument into an empty node-set (EXSLT)
+                items.append(mk("T", "boundary:evaluate-nesting", sh, must_fail=(not okk) if fn == "x:evaluate" else False,
+                                expect_out=("text", "7" if okk else "") if (okk or fn == "dyn:evaluate") else None))
+        items.append(mk("T", "boundary:evaluate-nesting", G.EVALUATE_SELF, must_fail=True))
     xl = facts.get("xpath_nesting_limit", 1024)
     if facts.get("xpath_nesting_cmp") == "CmpGe":
         xl -= 1
@@ -230,9 +261,11 @@ def library_verdict(it, f):
     if st == "0":
         return "ok" if kind not in ("nesting",) else "accept"
     if kind in ("variables",):
+        lm = LINE_RX.search(msg)
         if CIRC_RX.search(msg):
-            lm = LINE_RX.search(msg)
             return "circ %s" % (int(lm.group(1)) - 2 if lm else "?")
+        if INF_RX.search(msg) and re.search(r"'xsl:(variable|param)'", msg):
+            return "deep %s" % (int(lm.group(1)) - 2 if lm else "?")
         return "error:" + msg[:60]
     if kind == "attset":
         return "circ" if INF_RX.search(msg) and "attribute-set" in msg else "error:" + msg[:60]
@@ -250,7 +283,7 @@ def model_verdict(it, mv):
     if not w:
         return "?"
     if kind == "variables":
-        return "circ %s" % w[1] if w[0] == "circ" else w[0]
+        return "%s %s" % (w[0], w[1]) if w[0] in ("circ", "deep") else w[0]
     if kind == "attset":
         return w[0]
     if kind in ("templates", "ladder"):
@@ -284,7 +317,8 @@ def judge_item(it, f, build):
             got = sorted(re.findall(r"a\d+=\"\d+\"", out))
             if got != val or not re.fullmatch(r"\s*<r[^<>]*/>\s*", out):
                 bad.append(("wrong-output", "status 0 with output %r, expected the attributes %s (%s)" % (out[:96], " ".join(val), it.cls)))
-    if rc != 0 and it.oracle and it.oracle[0] in ("variables",) and it.must_fail and not CIRC_RX.search(msg):
+    if rc != 0 and it.oracle and it.oracle[0] in ("variables",) and it.must_fail and not CIRC_RX.search(msg) \
+            and not (FACTS.get("variable_depth_limited") and INF_RX.search(msg)):
         bad.append(("wrong-error", "a circular definition is refused with an unrelated message: %r" % msg[:120]))
     return bad
 
@@ -405,19 +439,36 @@ def write_corpus():
     return it
 
 
-def replay_known(ctx, plain, asan, known, tmpdir):
+def replay_known(ctx, plain, asan, known, tmpdir, facts):
     """the stored replays of this part's known findings, each alone in its own process"""
     m = C03()
     it = write_corpus()
     obs = {}
-    r, s, _, e = m.run_proc(plain, [it.case.line()], m.single_cpu_limit(True), limit_stack=1 << 20)
-    f = r.get(it.case.id)
-    obs["K-C03e-1"] = None if (f is not None or s in ("ok", "wall-backstop")) else "%s on a 1 MB stack" % s
+    repaired = {"K-C03e-1": bool(facts.get("variable_depth_limited")), "K-C03e-2": bool(facts.get("evaluate_nesting_limited")),
+                "K-C03e-4": bool(facts.get("nested_sort_own_sorter")), "K-C03e-3": False}
+
+    def crash_or_regression(item, key, builds, what):
+        """unrepaired variant: None or the observed crash; repaired variant: the replay is a regression case - it must be
+        answered with a reported error (non-zero status, message) in every build, on a 1 MB stack as well"""
+        for exe, lim in builds:
+            r, s, _, e = m.run_proc(exe, [item.case.line()], m.single_cpu_limit(True), **({"limit_stack": lim} if lim else {}))
+            f = r.get(item.case.id)
+            if s == "wall-backstop":
+                continue
+            if f is None:
+                return "%s%s %s" % (s, " on a 1 MB stack" if lim else "", m.report_of(e)[:120])
+            if repaired[key]:
+                bad = judge_item(item, f, os.path.basename(exe))
+                if bad:
+                    return bad[0][1][:200]
+                if s != "ok":
+                    return "answered, then %s %s" % (s, m.report_of(e)[:120])
+        return None
+    it.must_fail = True if repaired["K-C03e-1"] else False
+    obs["K-C03e-1"] = crash_or_regression(it, "K-C03e-1", [(plain, 1 << 20), (asan, None)] if repaired["K-C03e-1"] else [(plain, 1 << 20)], "deep chain")
     ev = mk("T", "corpus:evaluate-self", G.EVALUATE_SELF, must_fail=True)
     ev.case.id = "K-C03e-2"
-    r, s, _, e = m.run_proc(plain, [ev.case.line()], m.single_cpu_limit(True), limit_stack=1 << 20)
-    f = r.get(ev.case.id)
-    obs["K-C03e-2"] = None if (f is not None or s in ("ok", "wall-backstop")) else "%s on a 1 MB stack" % s
+    obs["K-C03e-2"] = crash_or_regression(ev, "K-C03e-2", [(plain, 1 << 20), (asan, None)] if repaired["K-C03e-2"] else [(plain, 1 << 20)], "evaluate")
     dd = mk("T", "corpus:document-of-directory", G.document_of_directory(tmpdir))
     dd.case.id = "K-C03e-3"
     r, s, _, e = m.run_proc(asan, [dd.case.line()], m.single_cpu_limit(True))
@@ -437,10 +488,14 @@ def replay_known(ctx, plain, asan, known, tmpdir):
         if not os.path.exists(pth) or open(pth).read() != txt:
             with open(pth, "w") as fh:
                 fh.write(txt)
+    ctx.notes["errors_repaired"] = repaired
     for k, o in sorted(obs.items()):
         if o is None:
             continue
-        if k in known:
+        if repaired.get(k):
+            ctx.violation("regression_" + k.replace("-", "_"), "# C03 (errors part) %s is repaired in this tree (translator flag), but its stored replay fails again: %s\n%s"
+                          % (k, o, {"K-C03e-1": it, "K-C03e-2": ev, "K-C03e-4": ns}[k].case.line()))
+        elif k in known:
             ctx.known_finding("%s %s [observed: %s]" % (k, known[k]["what"], o))
         else:
             ctx.violation("corpus_" + k.replace("-", "_"), "# C03 (errors part) corpus replay %s fails and is not listed as a known finding: %s" % (k, o))
@@ -488,13 +543,13 @@ def run_part(ctx):
             fh.write("#!/bin/sh\nulimit -v %d\nexec %s \"$@\"\n" % (PLAIN_AS_LIMIT_KB, plain))
         os.chmod(wrapper, 0o755)
         plain_raw, plain = plain, wrapper
-        replay_known(ctx, plain_raw, asan, known, tmpdir)
+        replay_known(ctx, plain_raw, asan, known, tmpdir, facts)
         scale = 1 if not ctx.thorough else 8
         sizes = sorted(set((ctx.notes.get("safe_facts") or {}).get("sizes") or []) | {100, 101, 200, 512, 1024})
         sizes = [s for s in sizes if s <= 4096]
 
         def build(scale, tag):
-            items = gen_graphs(ctx, scale) + gen_boundaries(ctx, facts)
+            items = gen_graphs(ctx, scale, facts) + gen_boundaries(ctx, facts)
             for cls, s, mf in G.import_cycles(tmpdir):
                 items.append(mk("T", cls, s, must_fail=mf))
             for cls, s, d, mf in G.gen_static(ctx.rng, 2 * scale):
@@ -508,7 +563,7 @@ def run_part(ctx):
         new = [f for f in failures if not (f[1] is not None and known_class(f[1], f[0]) in known)]
         if (corr or not proved or not model) and not new and not ctx.thorough:
             ctx.escalated = True
-            more = gen_graphs(ctx, 6) + gen_boundaries(ctx, facts)
+            more = gen_graphs(ctx, 6, facts) + gen_boundaries(ctx, facts)
             f2, c2 = evaluate(ctx, asan, plain, model, more, "w")
             failures += f2
             corr += c2
